@@ -23,7 +23,7 @@ func ruleNoReorder(c *Ctx, r *Report, clause, fnKey, what string) {
 	w := c.W
 	viol := ""
 	sites := []string{w.pos(fi.Decl.Pos())}
-	ast.Inspect(fi.Decl, func(n ast.Node) bool {
+	w.inspectRegion(fi, func(n ast.Node) bool {
 		if cl, ok := n.(*ast.CallExpr); ok {
 			cn := calleeOfCall(fi.Pkg.TypesInfo, cl)
 			if strings.HasPrefix(cn, "sort.") || strings.HasPrefix(cn, "slices.Sort") || cn == "slices.Reverse" {
@@ -163,7 +163,7 @@ func checkC06(c *Ctx, r *Report) {
 			var sites []string
 			if e.Ver == "3.0" {
 				n := 0
-				ast.Inspect(fi.Decl, func(nd ast.Node) bool {
+				w.inspectRegion(fi, func(nd ast.Node) bool {
 					if cl, ok := nd.(*ast.CallExpr); ok && strings.HasSuffix(calleeOfCall(fi.Pkg.TypesInfo, cl), "openapi3.NewContentWithJSONSchemaRef") {
 						n++
 						sites = append(sites, w.pos(cl.Pos()))
@@ -280,7 +280,7 @@ func checkValidatorApplied(c *Ctx, r *Report, ver, fn, validFn, fp string) {
 	viol := ""
 	var sites []string
 	n := 0
-	ast.Inspect(fi.Decl, func(nd ast.Node) bool {
+	w.inspectRegion(fi, func(nd ast.Node) bool {
 		cl, ok := nd.(*ast.CallExpr)
 		if !ok || calleeOfCall(fi.Pkg.TypesInfo, cl) != validFn {
 			return true
@@ -312,7 +312,7 @@ func checkFormParam(c *Ctx, r *Report, ver, crf, fp, schemaFn string) {
 	var sites []string
 	// property key = NameInSchema
 	nKey := 0
-	ast.Inspect(fi.Decl, func(n ast.Node) bool {
+	w.inspectRegion(fi, func(n ast.Node) bool {
 		switch x := n.(type) {
 		case *ast.AssignStmt:
 			if len(x.Lhs) == 1 {
@@ -494,67 +494,88 @@ func checkResponses(c *Ctx, r *Report, ver, pkgRel, gcs string, respT, opT *type
 	if sfi := need(c, r, "C06.e", crs); sfi != nil {
 		viol := ""
 		var sites []string
-		info := sfi.Pkg.TypesInfo
-		nWith, nWithout := 0, 0
-		ast.Inspect(sfi.Decl, func(n ast.Node) bool {
-			cl, ok := n.(*ast.CompositeLit)
+		// what is stored as Content / Description (struct literal element or field assignment)
+		for _, sk := range w.fieldSinks(sfi, respT, "Content") {
+			sites = append(sites, w.pos(sk.Pos))
+			if a := w.exprAtoms(sfi, sk.Expr); !a.hasCall("(definitions.RouteMetadata).GetValueReturnType") || !a.Fields["definitions.TypeMetadata.Name"] {
+				viol = fmt.Sprintf("%s: success content is not the schema of the method's value return type", w.pos(sk.Pos))
+			}
+		}
+		descs := w.fieldSinks(sfi, respT, "Description")
+		if len(descs) == 0 {
+			viol = "the success response has no description"
+		}
+		for _, sk := range descs {
+			sites = append(sites, w.pos(sk.Pos))
+			if a := w.exprAtoms(sfi, sk.Expr); !a.Fields["definitions.RouteMetadata.ResponseDescription"] {
+				viol = fmt.Sprintf("%s: success description is not route.ResponseDescription", w.pos(sk.Pos))
+			}
+		}
+		// content iff a value is returned, whatever the shape (two literals, or one response
+		// with Content attached under a condition):
+		// (a) every store to Response.Content happens where the value return type is known non-nil
+		// (b) no return is reachable without such a store unless it passed "value return type == nil"
+		valueNilFact := func(cnd ssa.Value, pol bool) int { // 1: known nil, -1: known non-nil, 0: says nothing
+			cnd, pol = unwrapNot(cnd, pol)
+			if bo, ok := cnd.(*ssa.BinOp); ok && (isNilConst(bo.X) || isNilConst(bo.Y)) && sliceOf(cnd).Calls["(definitions.RouteMetadata).GetValueReturnType"] {
+				if (bo.Op == token.EQL && pol) || (bo.Op == token.NEQ && !pol) {
+					return 1
+				}
+				return -1
+			}
+			return 0
+		}
+		contentField := fieldOf(respT, "Content")
+		storeBlocks := map[*ssa.BasicBlock]bool{}
+		nStores := 0
+		allInstrs(sfi.SSA, false, func(_ *ssa.Function, _ *ssa.BasicBlock, _ int, ins ssa.Instruction) {
+			st, ok := ins.(*ssa.Store)
 			if !ok {
-				return true
+				return
 			}
-			nt, ok := derefNamed(info.TypeOf(cl))
-			if !ok || nt.Obj() != respT.Obj() {
-				return true
+			fa, ok := st.Addr.(*ssa.FieldAddr)
+			if !ok || structFieldVar(fa.X.Type(), fa.Field) != contentField {
+				return
 			}
-			sites = append(sites, w.pos(cl.Pos()))
-			hasContent := false
-			for _, el := range cl.Elts {
-				if kv, ok := el.(*ast.KeyValueExpr); ok {
-					switch kv.Key.(*ast.Ident).Name {
-					case "Content":
-						hasContent = true
-						if a := w.exprAtoms(sfi, kv.Value); !a.hasCall("(definitions.RouteMetadata).GetValueReturnType") || !a.Fields["definitions.TypeMetadata.Name"] {
-							viol = fmt.Sprintf("%s: success content is not the schema of the method's value return type", w.pos(kv.Pos()))
-						}
-					case "Description":
-						if a := w.exprAtoms(sfi, kv.Value); !a.Fields["definitions.RouteMetadata.ResponseDescription"] {
-							viol = fmt.Sprintf("%s: success description is not route.ResponseDescription", w.pos(kv.Pos()))
-						}
+			if k, isConst := st.Val.(*ssa.Const); isConst && k.IsNil() {
+				return
+			}
+			nStores++
+			storeBlocks[st.Block()] = true
+			sites = append(sites, w.pos(st.Pos()))
+			known := 0
+			for _, f := range guardsOf(st) {
+				if v := valueNilFact(f.Cond, f.Pol); v != 0 {
+					known = v
+				}
+			}
+			if known != -1 {
+				viol = fmt.Sprintf("%s: content is produced although no value may be returned (the store is not under `GetValueReturnType() != nil`)", w.pos(st.Pos()))
+			}
+		})
+		if nStores == 0 {
+			viol = fmt.Sprintf("%s never sets the success response's content", crs)
+		}
+		nilEdges := map[edge]bool{}
+		for _, b := range sfi.SSA.Blocks {
+			if len(b.Instrs) == 0 {
+				continue
+			}
+			if ifi, ok := b.Instrs[len(b.Instrs)-1].(*ssa.If); ok && len(b.Succs) == 2 {
+				for i, s := range b.Succs {
+					if valueNilFact(ifi.Cond, i == 0) == 1 {
+						nilEdges[edge{b, s}] = true
 					}
 				}
 			}
-			if hasContent {
-				nWith++
-			} else {
-				nWithout++
-			}
-			return true
-		})
-		if nWith != 1 || nWithout != 1 {
-			viol = fmt.Sprintf("expected one success response with content and one without in %s, found %d/%d", crs, nWith, nWithout)
 		}
-		// the content-less return is guarded by valueReturnType == nil
+		reach, _ := reachAvoiding(sfi.SSA, storeBlocks, nilEdges)
 		for _, ex := range exitsOf(sfi.SSA) {
 			if ex.Ret == nil {
 				continue
 			}
-			a := sliceOf(ex.Ret.Results[0])
-			withContent := a.Calls[pkgRel+".createContentWithSchemaRef"]
-			nilKnown := 0
-			for _, f := range dominatingFacts(ex.Block) {
-				cnd, pol := unwrapNot(f.Cond, f.Pol)
-				if bo, ok := cnd.(*ssa.BinOp); ok && (isNilConst(bo.X) || isNilConst(bo.Y)) && sliceOf(cnd).Calls["(definitions.RouteMetadata).GetValueReturnType"] {
-					if (bo.Op == token.EQL && pol) || (bo.Op == token.NEQ && !pol) {
-						nilKnown = 1
-					} else {
-						nilKnown = -1
-					}
-				}
-			}
-			if !withContent && nilKnown != 1 {
+			if reach[ex.Block] && !storeBlocks[ex.Block] {
 				viol = fmt.Sprintf("%s: a content-less success response is produced although a value return type may exist", w.pos(retPos(ex)))
-			}
-			if withContent && nilKnown == 1 {
-				viol = fmt.Sprintf("%s: content is produced although no value is returned", w.pos(retPos(ex)))
 			}
 		}
 		o := r.add("C06.e", "guardedby", crs+":content-iff-value", ver+": the success response has content iff GetValueReturnType() != nil", []string{crs}, sites, viol)
@@ -652,7 +673,7 @@ func checkRequiredness(c *Ctx, r *Report, clause string) {
 		split, eq := false, false
 		var sites []string
 		bad := ""
-		ast.Inspect(fi.Decl, func(n ast.Node) bool {
+		w.inspectRegion(fi, func(n ast.Node) bool {
 			switch x := n.(type) {
 			case *ast.CallExpr:
 				cn := calleeOfCall(info, x)
